@@ -282,3 +282,71 @@ func ZZ_C16_dupfill() {
 	}
 	rt.Reach("end")
 }
+
+// ZZ_C16_message: "encodes iff the variable list is empty" at message level, for a message
+// whose data item is a bare item of every kind (variable or value), an empty item, and lists
+// around them: with the wait bit decided and the session id set, ToBytes() is empty exactly
+// when Variables() is not.
+func ZZ_C16_message() {
+	kind, wrap := rt.Param("kind"), rt.Param("wrap")
+	bare := []func(v bool) ItemNode{
+		func(v bool) ItemNode {
+			if v {
+				return NewASCIINodeVariable("text", 0, -1)
+			}
+			return NewASCIINode("ab")
+		},
+		func(v bool) ItemNode {
+			if v {
+				return NewASCIINodeVariable("text", 2, 2)
+			}
+			return NewASCIINode("")
+		},
+		func(v bool) ItemNode { return NewBinaryNode(zzVarOr(v, "p", 1)) },
+		func(v bool) ItemNode { return NewBooleanNode(zzVarOr(v, "p", true)) },
+		func(v bool) ItemNode { return NewIntNode(4, zzVarOr(v, "p", -2)) },
+		func(v bool) ItemNode { return NewUintNode(8, zzVarOr(v, "p", 2)) },
+		func(v bool) ItemNode { return NewFloatNode(4, zzVarOr(v, "p", 1.5)) },
+		func(v bool) ItemNode { return NewFloatNode(8, 2.5, zzVarOr(v, "p", 1.5)) },
+		func(v bool) ItemNode {
+			if v {
+				return NewListNode(NewIntNode(1, 1), "...")
+			}
+			return NewListNode()
+		},
+		func(v bool) ItemNode {
+			if v {
+				return NewListNode("lv")
+			}
+			return NewEmptyItemNode()
+		},
+	}[kind]
+	for _, hasVar := range []bool{true, false} {
+		item := bare(hasVar)
+		if kind == 9 && !hasVar && wrap > 0 {
+			// "no item" cannot be a list element: it would print as nothing, have no variable and yet not encode
+			rt.Assert(rt.Try(func() { NewListNode(NewUintNode(1, 1), item) }), "list:empty-item-refused-as-element")
+			rt.Assert(rt.Try(func() { NewListNode("lv").FillVariables(map[string]interface{}{"lv": item}) }), "list:empty-item-refused-as-fill-value")
+			continue
+		}
+		for i := 0; i < wrap; i++ {
+			item = NewListNode(NewUintNode(1, 1), item)
+		}
+		m := NewDataMessage("n", 1, 1, 0, "H->E", item).SetSessionIDAndSystemBytes(int(rt.Uint16("sid")), rt.Bytes("sys", 4))
+		vars := m.Variables()
+		rt.Assert((len(vars) > 0) == hasVar, "message:variables-listed")
+		b := m.ToBytes()
+		rt.Assert((len(b) == 0) == hasVar, "message:encodes-iff-no-variables")
+		if !hasVar {
+			rt.Assert(len(b) == 14+len(item.ToBytes()), "message:header-plus-item")
+		}
+	}
+	rt.Reach("end")
+}
+
+func zzVarOr(v bool, name string, val interface{}) interface{} {
+	if v {
+		return name
+	}
+	return val
+}
